@@ -281,4 +281,6 @@ var pastCrashers = [][3]string{
 	{"s", "b'a\nb'; $x = 1;", ""},
 	{"s", "$a = 1; // c\r\n$b = 2;", "run"},
 	{"s", "if ($a > ) { echo 1; }", "run"},
+	{"s", "for 1 in $a { }\n", ""},
+	{"s", "trait T { public $x = 1; public $x = 2; }\nclass A { use T; }\n", ""},
 }
